@@ -313,6 +313,7 @@ EXPORT wchar_t *_wcstok_s_chk(wchar_t *restrict dest, rsize_t *restrict dmaxp,
      * need to continue the scan.
      */
     if (ptoken == NULL) {
+        *ptr = dest; /* at the terminator: later calls find no token either */
         *dmaxp = dlen;
         return (ptoken);
     }
@@ -367,6 +368,7 @@ EXPORT wchar_t *_wcstok_s_chk(wchar_t *restrict dest, rsize_t *restrict dmaxp,
         dlen--;
     }
 
+    *ptr = dest; /* the last token ends at the terminator: continue from there */
     *dmaxp = dlen;
     return (ptoken);
 }
